@@ -43,6 +43,18 @@ impl<T> NoPoisonMutex<T> {
 
 static LOCK_FUNCTION: NoPoisonMutex<()> = NoPoisonMutex::new(());
 
+/// Verification hook (compiled only with `--cfg injectorpp_verif`): observes the state of the
+/// process-wide guard without taking part in it. 0 = free, 1 = held, 2 = free and poisoned.
+#[cfg(injectorpp_verif)]
+#[doc(hidden)]
+pub fn __verif_lock_state() -> u8 {
+    match LOCK_FUNCTION.inner.try_lock() {
+        Ok(_) => 0,
+        Err(std::sync::TryLockError::WouldBlock) => 1,
+        Err(std::sync::TryLockError::Poisoned(_)) => 2,
+    }
+}
+
 /// A high-level type that holds patch guards so that when it goes out of scope,
 /// the original function code is automatically restored.
 ///
